@@ -240,6 +240,16 @@ theorem C02_select_registered (gs : List Registration) (bit : Nat) (path : Str)
   exact selectRegex_first_match bit path pre post pat inner groups names rh hpre hm hb
 
 
+/-- non-vacuity: `/a` for GET, `/b` for GET, then `/a` again for POST - `/a` keeps the first place and
+    now answers both methods -/
+example :
+    keys (regAll {} [⟨"/a".toList, 1, 2, [], none⟩, ⟨"/b".toList, 2, 2, [], none⟩, ⟨"/a".toList, 3, 4, [], none⟩]).rhandlers
+      = ["/a".toList, "/b".toList] := by decide
+
+example :
+    lookup2 (regAll {} [⟨"/a".toList, 1, 2, [], none⟩, ⟨"/b".toList, 2, 2, [], none⟩, ⟨"/a".toList, 3, 4, [], none⟩]).rhandlers
+      "/a".toList 4 = some ⟨3, [], none⟩ := by decide
+
 end Registrations
 
 end Poor.Props.C02
